@@ -26,6 +26,9 @@ Proof.
 Qed.
 
 (* ---------- the flags word of QueryOptions: one bit per feature ---------- *)
+Ltac qo_unfold_flags :=
+  cbv [QueryOptions_Flags qo_PositionalValues qo_NamedValues qo_SkipMetadata qo_PageSize qo_PageSizeInBytes qo_PagingState
+       qo_SerialConsistency qo_DefaultTimestamp qo_Keyspace qo_NowInSeconds qo_ContinuousPagingOptions].
 Lemma qo_flags_spec o : let f := QueryOptions_Flags o in
   QueryFlag_Contains f QueryFlagValues = (is_some (qo_PositionalValues o) || is_some (qo_NamedValues o)) /\
   QueryFlag_Contains f QueryFlagValueNames = (negb (is_some (qo_PositionalValues o)) && is_some (qo_NamedValues o)) /\
@@ -37,15 +40,21 @@ Lemma qo_flags_spec o : let f := QueryOptions_Flags o in
   QueryFlag_Contains f QueryFlagDefaultTimestamp = is_some (qo_DefaultTimestamp o) /\
   QueryFlag_Contains f QueryFlagWithKeyspace = nonempty (qo_Keyspace o) /\
   QueryFlag_Contains f QueryFlagNowInSeconds = is_some (qo_NowInSeconds o) /\
-  QueryFlag_Contains f QueryFlagDseWithContinuousPagingOptions = is_some (qo_ContinuousPagingOptions o) /\
-  ((0 <=? f) && (f <? 4294967296)) = true /\
-  (is_some (qo_NowInSeconds o) || ((qo_PageSize o >? 0) && qo_PageSizeInBytes o) || is_some (qo_ContinuousPagingOptions o)
-   || (f <? 256)) = true.
+  QueryFlag_Contains f QueryFlagDseWithContinuousPagingOptions = is_some (qo_ContinuousPagingOptions o).
 Proof.
-  destruct o as [cons pos named skip ps inb pgs ser ts ks now cpo].
-  cbv [QueryOptions_Flags qo_PositionalValues qo_NamedValues qo_SkipMetadata qo_PageSize qo_PageSizeInBytes qo_PagingState
-       qo_SerialConsistency qo_DefaultTimestamp qo_Keyspace qo_NowInSeconds qo_ContinuousPagingOptions].
-  destruct pos, named, skip, (ps >? 0), inb, pgs, ser, ts, ks, now, cpo; repeat split; reflexivity.
+  destruct o as [cons pos named skip ps inb pgs ser ts ks now cpo]. qo_unfold_flags.
+  destruct pos, named, (ps >? 0), inb; cbn [is_some]; repeat split; contains_tb; reflexivity.
+Qed.
+Lemma qo_flags_range o : 0 <= QueryOptions_Flags o < 4294967296.
+Proof.
+  destruct o as [cons pos named skip ps inb pgs ser ts ks now cpo]. qo_unfold_flags. change 4294967296 with (2 ^ 32).
+  destruct pos, named, (ps >? 0); flags_range.
+Qed.
+Lemma qo_flags_small o : is_some (qo_NowInSeconds o) = false -> ((qo_PageSize o >? 0) && qo_PageSizeInBytes o) = false ->
+  is_some (qo_ContinuousPagingOptions o) = false -> 0 <= QueryOptions_Flags o < 256.
+Proof.
+  destruct o as [cons pos named skip ps inb pgs ser ts ks now cpo]. qo_unfold_flags. change 256 with (2 ^ 8).
+  intros -> H ->. destruct pos, named, (ps >? 0); cbn [andb] in H; try subst inb; cbn [flag_if]; flags_range.
 Qed.
 
 Lemma flags_supported_in version flags flag : flags_supportedb version flags = true -> In flag qo_flag_list ->
@@ -119,133 +128,139 @@ Definition bytes_qo_keyspace (o : QueryOptions) : bytes := if nonempty (qo_Keysp
 Definition bytes_qo_now (o : QueryOptions) : bytes := bytes_opt (be_bytes 4) (qo_NowInSeconds o).
 Definition bytes_qo_cpo (v : Z) (o : QueryOptions) : bytes := bytes_opt (bytes_cpo v) (qo_ContinuousPagingOptions o).
 
-Section Parts.
-  Variables (v flags : Z) (o : QueryOptions).
-  Let vals' := (option_map (map novalue) (qo_PositionalValues o),
-                match qo_PositionalValues o with
-                | Some _ => None
-                | None => option_map (map (fun kv => (fst kv, novalue (snd kv)))) (qo_NamedValues o)
-                end).
+Definition qo_vals' (o : QueryOptions) :=
+  (option_map (map novalue) (qo_PositionalValues o),
+   match qo_PositionalValues o with
+   | Some _ => None
+   | None => option_map (map (fun kv => (fst kv, novalue (snd kv)))) (qo_NamedValues o)
+   end).
 
-  (* values *)
-  Hypothesis Fv : QueryFlag_Contains flags QueryFlagValues = (is_some (qo_PositionalValues o) || is_some (qo_NamedValues o)).
-  Hypothesis Fn : QueryFlag_Contains flags QueryFlagValueNames = (negb (is_some (qo_PositionalValues o)) && is_some (qo_NamedValues o)).
-  Hypothesis Hpos : opt_okb (values_okb v) (qo_PositionalValues o) = true.
-  Hypothesis Hnamed : opt_okb (named_values_okb v) (qo_NamedValues o) = true.
-  Lemma qo_values_facts :
-    facts (enc_qo_values v flags o) (len_qo_values flags o) (dec_qo_values v flags) (bytes_qo_values o) vals'.
-  Proof.
-    unfold facts, enc_qo_values, len_qo_values, dec_qo_values, bytes_qo_values, vals'. rewrite Fv, Fn.
-    destruct (qo_PositionalValues o) as [pl|]; cbn [is_some orb negb andb olist option_map opt_okb] in *.
-    - pose proof (values_okb_ok _ _ Hpos) as Hp. repeat split.
-      + apply write_positional_values_ok. exact Hp.
-      + intro rest. unfold bind. rewrite read_positional_values_app by exact Hp. reflexivity.
-      + apply (len_positional_values_ok v). exact Hp.
-    - destruct (qo_NamedValues o) as [nl|]; cbn [is_some orb negb andb olist option_map opt_okb] in *.
-      + destruct (named_values_okb_ok _ _ Hnamed) as [Hn Hd]. repeat split.
-        * apply write_named_values_ok. exact Hn.
-        * intro rest. unfold bind. rewrite read_named_values_app by exact Hn. unfold ret.
-          rewrite dedup_last_nodup by (rewrite nodup_keysb_map; exact Hd). reflexivity.
-        * apply (len_named_values_ok v). exact Hn.
-      + repeat split.
-  Qed.
+(* values *)
+Lemma qo_values_facts v flags o :
+  QueryFlag_Contains flags QueryFlagValues = (is_some (qo_PositionalValues o) || is_some (qo_NamedValues o)) ->
+  QueryFlag_Contains flags QueryFlagValueNames = (negb (is_some (qo_PositionalValues o)) && is_some (qo_NamedValues o)) ->
+  opt_okb (values_okb v) (qo_PositionalValues o) = true ->
+  opt_okb (named_values_okb v) (qo_NamedValues o) = true ->
+  facts (enc_qo_values v flags o) (len_qo_values flags o) (dec_qo_values v flags) (bytes_qo_values o) (qo_vals' o).
+Proof.
+  intros Fv Fn Hpos Hnamed.
+  unfold facts, enc_qo_values, len_qo_values, dec_qo_values, bytes_qo_values, qo_vals'. rewrite Fv, Fn.
+  destruct (qo_PositionalValues o) as [pl|]; cbn [is_some orb negb andb olist option_map opt_okb] in Hpos |- *.
+  - pose proof (values_okb_ok _ _ Hpos) as Hp. repeat split.
+    + apply write_positional_values_ok. exact Hp.
+    + intro rest. unfold bind. rewrite read_positional_values_app by exact Hp. reflexivity.
+    + apply (len_positional_values_ok v). exact Hp.
+  - destruct (qo_NamedValues o) as [nl|]; cbn [is_some orb negb andb olist option_map opt_okb] in Hnamed |- *.
+    + destruct (named_values_okb_ok _ _ Hnamed) as [Hn Hd]. repeat split.
+      * apply write_named_values_ok. exact Hn.
+      * intro rest. unfold bind. rewrite read_named_values_app by exact Hn. unfold ret.
+        rewrite dedup_last_nodup by (rewrite nodup_keysb_map; exact Hd). reflexivity.
+      * apply (len_named_values_ok v). exact Hn.
+    + repeat split.
+Qed.
 
-  (* page size *)
-  Hypothesis Fp : QueryFlag_Contains flags QueryFlagPageSize = (qo_PageSize o >? 0).
-  Hypothesis Fb : QueryFlag_Contains flags QueryFlagDsePageSizeBytes = ((qo_PageSize o >? 0) && qo_PageSizeInBytes o).
-  Hypothesis Hps : i32_okb (qo_PageSize o) = true.
-  Lemma qo_page_size_facts :
-    facts (enc_qo_page_size flags o) (if QueryFlag_Contains flags QueryFlagPageSize then Ok LengthOfInt else Ok 0)
-          (dec_qo_page_size flags) (bytes_qo_page_size o)
-          (if qo_PageSize o >? 0 then qo_PageSize o else 0, (qo_PageSize o >? 0) && qo_PageSizeInBytes o).
-  Proof.
-    unfold facts, enc_qo_page_size, dec_qo_page_size, bytes_qo_page_size. rewrite Fb, Fp. apply i32_okb_in in Hps.
-    destruct (qo_PageSize o >? 0); repeat split.
-    - intro rest. unfold bind. rewrite read_int_app by exact Hps. reflexivity.
-  Qed.
+(* page size *)
+Lemma qo_page_size_facts flags o :
+  QueryFlag_Contains flags QueryFlagPageSize = (qo_PageSize o >? 0) ->
+  QueryFlag_Contains flags QueryFlagDsePageSizeBytes = ((qo_PageSize o >? 0) && qo_PageSizeInBytes o) ->
+  i32_okb (qo_PageSize o) = true ->
+  facts (enc_qo_page_size flags o) (if QueryFlag_Contains flags QueryFlagPageSize then Ok LengthOfInt else Ok 0)
+        (dec_qo_page_size flags) (bytes_qo_page_size o)
+        (if qo_PageSize o >? 0 then qo_PageSize o else 0, (qo_PageSize o >? 0) && qo_PageSizeInBytes o).
+Proof.
+  intros Fp Fb Hps.
+  unfold facts, enc_qo_page_size, dec_qo_page_size, bytes_qo_page_size. rewrite Fb, Fp. apply i32_okb_in in Hps.
+  destruct (qo_PageSize o >? 0); repeat split.
+  - intro rest. unfold bind. rewrite read_int_app by exact Hps. reflexivity.
+Qed.
 
-  (* paging state *)
-  Hypothesis Fs : QueryFlag_Contains flags QueryFlagPagingState = is_some (qo_PagingState o).
-  Hypothesis Hpgs : lstr_okb (olist (qo_PagingState o)) = true.
-  Lemma qo_paging_state_facts :
-    facts (enc_qo_paging_state flags o) (if QueryFlag_Contains flags QueryFlagPagingState then Ok (len_bytes (qo_PagingState o)) else Ok 0)
-          (dec_qo_paging_state flags) (bytes_qo_paging_state o) (qo_PagingState o).
-  Proof.
-    unfold facts, enc_qo_paging_state, dec_qo_paging_state, bytes_qo_paging_state. rewrite Fs. apply lstr_okb_le in Hpgs.
-    destruct (qo_PagingState o) as [b|]; cbn [is_some bytes_opt]; repeat split.
-    - apply write_bytes_ok. exact Hpgs.
-    - intro rest. apply read_bytes_app. exact Hpgs.
-    - rewrite enc_bytes_len. reflexivity.
-  Qed.
+(* paging state *)
+Lemma qo_paging_state_facts flags o :
+  QueryFlag_Contains flags QueryFlagPagingState = is_some (qo_PagingState o) ->
+  lstr_okb (olist (qo_PagingState o)) = true ->
+  facts (enc_qo_paging_state flags o) (if QueryFlag_Contains flags QueryFlagPagingState then Ok (len_bytes (qo_PagingState o)) else Ok 0)
+        (dec_qo_paging_state flags) (bytes_qo_paging_state o) (qo_PagingState o).
+Proof.
+  intros Fs Hpgs.
+  unfold facts, enc_qo_paging_state, dec_qo_paging_state, bytes_qo_paging_state. rewrite Fs. apply lstr_okb_le in Hpgs.
+  destruct (qo_PagingState o) as [b|]; cbn [is_some bytes_opt]; repeat split.
+  - apply write_bytes_ok. exact Hpgs.
+  - intro rest. apply read_bytes_app. exact Hpgs.
+  - rewrite enc_bytes_len. reflexivity.
+Qed.
 
-  (* serial consistency *)
-  Hypothesis Fc : QueryFlag_Contains flags QueryFlagSerialConsistency = is_some (qo_SerialConsistency o).
-  Hypothesis Hser : opt_okb (fun c => is_ok (CheckSerialConsistencyLevel c)) (qo_SerialConsistency o) = true.
-  Lemma qo_serial_facts :
-    facts (enc_qo_serial flags o) (if QueryFlag_Contains flags QueryFlagSerialConsistency then Ok LengthOfShort else Ok 0)
-          (dec_qo_serial flags) (bytes_qo_serial o) (qo_SerialConsistency o).
-  Proof.
-    unfold facts, enc_qo_serial, dec_qo_serial, bytes_qo_serial. rewrite Fc.
-    destruct (qo_SerialConsistency o) as [c|]; cbn [is_some bytes_opt opt_okb] in *; repeat split.
-    - rewrite Hser. cbn [wguard]. rewrite wapp_nil_l. unfold write_short.
-      pose proof (consistency_valid_range c (consistency_serial_valid c Hser)). rewrite wrap_u16_small by (unfold in_u16 in *; lia). reflexivity.
-    - intro rest. pose proof (consistency_serial_valid c Hser) as Hv. pose proof (consistency_valid_range c Hv).
-      unfold bind at 1. rewrite read_short_app by assumption. rewrite Hv. reflexivity.
-  Qed.
+(* serial consistency *)
+Lemma qo_serial_facts flags o :
+  QueryFlag_Contains flags QueryFlagSerialConsistency = is_some (qo_SerialConsistency o) ->
+  opt_okb (fun c => is_ok (CheckSerialConsistencyLevel c)) (qo_SerialConsistency o) = true ->
+  facts (enc_qo_serial flags o) (if QueryFlag_Contains flags QueryFlagSerialConsistency then Ok LengthOfShort else Ok 0)
+        (dec_qo_serial flags) (bytes_qo_serial o) (qo_SerialConsistency o).
+Proof.
+  intros Fc Hser.
+  unfold facts, enc_qo_serial, dec_qo_serial, bytes_qo_serial. rewrite Fc.
+  destruct (qo_SerialConsistency o) as [c|]; cbn [is_some bytes_opt opt_okb] in Hser |- *; repeat split.
+  - rewrite Hser. cbn [wguard]. rewrite wapp_nil_l. unfold write_short.
+    pose proof (consistency_valid_range c (consistency_serial_valid c Hser)). rewrite wrap_u16_small by (unfold in_u16 in *; lia). reflexivity.
+  - intro rest. pose proof (consistency_serial_valid c Hser) as Hv. pose proof (consistency_valid_range c Hv).
+    unfold bind at 1. rewrite read_short_app by assumption. rewrite Hv. reflexivity.
+Qed.
 
-  (* default timestamp *)
-  Hypothesis Ft : QueryFlag_Contains flags QueryFlagDefaultTimestamp = is_some (qo_DefaultTimestamp o).
-  Hypothesis Hts : opt_okb i64_okb (qo_DefaultTimestamp o) = true.
-  Lemma qo_timestamp_facts :
-    facts (enc_qo_timestamp flags o) (if QueryFlag_Contains flags QueryFlagDefaultTimestamp then Ok LengthOfLong else Ok 0)
-          (dec_qo_timestamp flags) (bytes_qo_timestamp o) (qo_DefaultTimestamp o).
-  Proof.
-    unfold facts, enc_qo_timestamp, dec_qo_timestamp, bytes_qo_timestamp. rewrite Ft.
-    destruct (qo_DefaultTimestamp o) as [t|]; cbn [is_some bytes_opt opt_okb] in *; repeat split.
-    - intro rest. unfold rmap, bind. rewrite read_long_app by (apply i64_okb_in; exact Hts). reflexivity.
-  Qed.
+(* default timestamp *)
+Lemma qo_timestamp_facts flags o :
+  QueryFlag_Contains flags QueryFlagDefaultTimestamp = is_some (qo_DefaultTimestamp o) ->
+  opt_okb i64_okb (qo_DefaultTimestamp o) = true ->
+  facts (enc_qo_timestamp flags o) (if QueryFlag_Contains flags QueryFlagDefaultTimestamp then Ok LengthOfLong else Ok 0)
+        (dec_qo_timestamp flags) (bytes_qo_timestamp o) (qo_DefaultTimestamp o).
+Proof.
+  intros Ft Hts.
+  unfold facts, enc_qo_timestamp, dec_qo_timestamp, bytes_qo_timestamp. rewrite Ft.
+  destruct (qo_DefaultTimestamp o) as [t|]; cbn [is_some bytes_opt opt_okb] in Hts |- *; repeat split.
+  - intro rest. unfold rmap, bind. rewrite read_long_app by (apply i64_okb_in; exact Hts). reflexivity.
+Qed.
 
-  (* keyspace *)
-  Hypothesis Fk : QueryFlag_Contains flags QueryFlagWithKeyspace = nonempty (qo_Keyspace o).
-  Hypothesis Hks : str_okb (qo_Keyspace o) = true.
-  Lemma qo_keyspace_facts :
-    facts (enc_qo_keyspace flags o) (if QueryFlag_Contains flags QueryFlagWithKeyspace then Ok (len_string (qo_Keyspace o)) else Ok 0)
-          (dec_qo_keyspace flags) (bytes_qo_keyspace o) (qo_Keyspace o).
-  Proof.
-    unfold facts, enc_qo_keyspace, dec_qo_keyspace, bytes_qo_keyspace. rewrite Fk. apply str_okb_le in Hks.
-    destruct (nonempty (qo_Keyspace o)) eqn:E; repeat split.
-    - apply write_string_ok. exact Hks.
-    - intro rest. apply read_string_app. exact Hks.
-    - rewrite enc_string_len. reflexivity.
-    - intro rest. apply nonempty_false in E. rewrite E. reflexivity.
-  Qed.
+(* keyspace *)
+Lemma qo_keyspace_facts flags o :
+  QueryFlag_Contains flags QueryFlagWithKeyspace = nonempty (qo_Keyspace o) ->
+  str_okb (qo_Keyspace o) = true ->
+  facts (enc_qo_keyspace flags o) (if QueryFlag_Contains flags QueryFlagWithKeyspace then Ok (len_string (qo_Keyspace o)) else Ok 0)
+        (dec_qo_keyspace flags) (bytes_qo_keyspace o) (qo_Keyspace o).
+Proof.
+  intros Fk Hks.
+  unfold facts, enc_qo_keyspace, dec_qo_keyspace, bytes_qo_keyspace. rewrite Fk. apply str_okb_le in Hks.
+  destruct (nonempty (qo_Keyspace o)) eqn:E; repeat split.
+  - apply write_string_ok. exact Hks.
+  - intro rest. apply read_string_app. exact Hks.
+  - rewrite enc_string_len. reflexivity.
+  - intro rest. apply nonempty_false in E. rewrite E. reflexivity.
+Qed.
 
-  (* now-in-seconds *)
-  Hypothesis Fw : QueryFlag_Contains flags QueryFlagNowInSeconds = is_some (qo_NowInSeconds o).
-  Hypothesis Hnow : opt_okb i32_okb (qo_NowInSeconds o) = true.
-  Lemma qo_now_facts :
-    facts (enc_qo_now flags o) (if QueryFlag_Contains flags QueryFlagNowInSeconds then Ok LengthOfInt else Ok 0)
-          (dec_qo_now flags) (bytes_qo_now o) (qo_NowInSeconds o).
-  Proof.
-    unfold facts, enc_qo_now, dec_qo_now, bytes_qo_now. rewrite Fw.
-    destruct (qo_NowInSeconds o) as [t|]; cbn [is_some bytes_opt opt_okb] in *; repeat split.
-    - intro rest. unfold rmap, bind. rewrite read_int_app by (apply i32_okb_in; exact Hnow). reflexivity.
-  Qed.
+(* now-in-seconds *)
+Lemma qo_now_facts flags o :
+  QueryFlag_Contains flags QueryFlagNowInSeconds = is_some (qo_NowInSeconds o) ->
+  opt_okb i32_okb (qo_NowInSeconds o) = true ->
+  facts (enc_qo_now flags o) (if QueryFlag_Contains flags QueryFlagNowInSeconds then Ok LengthOfInt else Ok 0)
+        (dec_qo_now flags) (bytes_qo_now o) (qo_NowInSeconds o).
+Proof.
+  intros Fw Hnow.
+  unfold facts, enc_qo_now, dec_qo_now, bytes_qo_now. rewrite Fw.
+  destruct (qo_NowInSeconds o) as [t|]; cbn [is_some bytes_opt opt_okb] in Hnow |- *; repeat split.
+  - intro rest. unfold rmap, bind. rewrite read_int_app by (apply i32_okb_in; exact Hnow). reflexivity.
+Qed.
 
-  (* continuous paging options *)
-  Hypothesis Fo : QueryFlag_Contains flags QueryFlagDseWithContinuousPagingOptions = is_some (qo_ContinuousPagingOptions o).
-  Hypothesis Hcpo : opt_okb (ContinuousPagingOptions_okb v) (qo_ContinuousPagingOptions o) = true.
-  Lemma qo_cpo_facts :
-    facts (enc_qo_cpo v flags o)
-          (if QueryFlag_Contains flags QueryFlagDseWithContinuousPagingOptions then len_ContinuousPagingOptions v (qo_ContinuousPagingOptions o) else Ok 0)
-          (dec_qo_cpo v flags) (bytes_qo_cpo v o) (qo_ContinuousPagingOptions o).
-  Proof.
-    unfold facts, enc_qo_cpo, dec_qo_cpo, bytes_qo_cpo. rewrite Fo.
-    destruct (qo_ContinuousPagingOptions o) as [c|]; cbn [is_some bytes_opt opt_okb] in *; [|repeat split].
-    destruct (ContinuousPagingOptions_facts v c Hcpo) as (E1 & E2 & E3). repeat split; [exact E1| |exact E3].
-    intro rest. unfold rmap, bind. rewrite E2. reflexivity.
-  Qed.
-End Parts.
+(* continuous paging options *)
+Lemma qo_cpo_facts v flags o :
+  QueryFlag_Contains flags QueryFlagDseWithContinuousPagingOptions = is_some (qo_ContinuousPagingOptions o) ->
+  opt_okb (ContinuousPagingOptions_okb v) (qo_ContinuousPagingOptions o) = true ->
+  facts (enc_qo_cpo v flags o)
+        (if QueryFlag_Contains flags QueryFlagDseWithContinuousPagingOptions then len_ContinuousPagingOptions v (qo_ContinuousPagingOptions o) else Ok 0)
+        (dec_qo_cpo v flags) (bytes_qo_cpo v o) (qo_ContinuousPagingOptions o).
+Proof.
+  intros Fo Hcpo.
+  unfold facts, enc_qo_cpo, dec_qo_cpo, bytes_qo_cpo. rewrite Fo.
+  destruct (qo_ContinuousPagingOptions o) as [c|]; cbn [is_some bytes_opt opt_okb] in Hcpo |- *; [|repeat split].
+  destruct (ContinuousPagingOptions_facts v c Hcpo) as (E1 & E2 & E3). repeat split; [exact E1| |exact E3].
+  intro rest. unfold rmap, bind. rewrite E2. reflexivity.
+Qed.
 
 (* ================= QueryOptions ================= *)
 Definition bytes_QueryOptions (v : Z) (o : QueryOptions) : bytes :=
@@ -256,26 +271,26 @@ Definition bytes_QueryOptions (v : Z) (o : QueryOptions) : bytes :=
 Lemma qo_flags_byte v o : flags_supportedb v (QueryOptions_Flags o) = true ->
   ProtocolVersion_Uses4BytesQueryFlags v = false -> 0 <= QueryOptions_Flags o < 256.
 Proof.
-  intros Hs Hu. destruct (qo_flags_spec o) as (_ & _ & _ & _ & Fb & _ & _ & _ & _ & Fw & Fo & Hr & Hb). cbv zeta in *.
+  intros Hs Hu. destruct (qo_flags_spec o) as (_ & _ & _ & _ & Fb & _ & _ & _ & _ & Fw & Fo). cbv zeta in *.
   assert (Hin : forall fl, In fl [QueryFlagNowInSeconds; QueryFlagDsePageSizeBytes; QueryFlagDseWithContinuousPagingOptions] -> In fl qo_flag_list).
   { unfold qo_flag_list. cbn [In]. intuition. }
-  destruct (is_some (qo_NowInSeconds o)) eqn:E1.
-  { pose proof (flags_supported_in _ _ _ Hs (Hin _ (or_introl eq_refl)) Fw) as S. apply supports_now_uses4 in S. congruence. }
-  destruct ((qo_PageSize o >? 0) && qo_PageSizeInBytes o) eqn:E2.
-  { pose proof (flags_supported_in _ _ _ Hs (Hin _ (or_intror (or_introl eq_refl))) Fb) as S. apply dse_uses4 in S. congruence. }
-  destruct (is_some (qo_ContinuousPagingOptions o)) eqn:E3.
-  { pose proof (flags_supported_in _ _ _ Hs (Hin _ (or_intror (or_intror (or_introl eq_refl)))) Fo) as S. apply dse_uses4 in S. congruence. }
-  cbn [orb] in Hb. lia.
+  apply qo_flags_small.
+  - destruct (is_some (qo_NowInSeconds o)) eqn:E1; [|reflexivity].
+    pose proof (flags_supported_in _ _ _ Hs (Hin _ (or_introl eq_refl)) Fw) as S. apply supports_now_uses4 in S. congruence.
+  - destruct ((qo_PageSize o >? 0) && qo_PageSizeInBytes o) eqn:E2; [|reflexivity].
+    pose proof (flags_supported_in _ _ _ Hs (Hin _ (or_intror (or_introl eq_refl))) Fb) as S. apply dse_uses4 in S. congruence.
+  - destruct (is_some (qo_ContinuousPagingOptions o)) eqn:E3; [|reflexivity].
+    pose proof (flags_supported_in _ _ _ Hs (Hin _ (or_intror (or_intror (or_introl eq_refl)))) Fo) as S. apply dse_uses4 in S. congruence.
 Qed.
 
 Lemma QueryOptions_facts v o : QueryOptions_okb v o = true ->
   facts (enc_QueryOptions v (Some o)) (len_QueryOptions v (Some o)) (dec_QueryOptions v) (bytes_QueryOptions v o) (norm_QueryOptions v o).
 Proof.
   unfold QueryOptions_okb. intro H. bsplit H.
-  destruct (qo_flags_spec o) as (Fv & Fn & Fk & Fp & Fb & Fs & Fc & Ft & Fy & Fw & Fo & Hr & _). cbv zeta in *.
+  destruct (qo_flags_spec o) as (Fv & Fn & Fk & Fp & Fb & Fs & Fc & Ft & Fy & Fw & Fo). cbv zeta in *.
   pose proof (qo_flags_byte v o H9) as Hbyte.
   pose proof (consistency_valid_range _ H) as Hcons.
-  assert (Hrange : 0 <= QueryOptions_Flags o < 4294967296) by lia.
+  pose proof (qo_flags_range o) as Hrange.
   destruct (qo_values_facts v _ o Fv Fn H8 H7) as (V1 & V2 & V3).
   destruct (qo_page_size_facts _ o Fp Fb H6) as (P1 & P2 & P3).
   destruct (qo_paging_state_facts _ o Fs H5) as (S1 & S2 & S3).
@@ -296,7 +311,7 @@ Proof.
     unfold bind at 1. rewrite T2. unfold bind at 1. rewrite K2. unfold bind at 1. rewrite N2.
     unfold bind at 1. rewrite O2. unfold ret. rewrite Fk. reflexivity.
   - unfold len_QueryOptions. cbv zeta. rewrite (len_query_flags_ok v (QueryOptions_Flags o)), V3, P3, S3, C3, T3, K3, N3, O3.
-    cbn [ladd]. rewrite !zlen_app, be_bytes_zlen. unfold LengthOfShort. f_equal. lia.
+    cbn [ladd]. rewrite !zlen_app, be_bytes_zlen. unfold LengthOfShort. f_equal; lia.
 Qed.
 
 Definition oqo (oo : option QueryOptions) : QueryOptions := match oo with Some o => o | None => default_QueryOptions end.
